@@ -24,7 +24,7 @@ PROBES = {"C12": ["fit_input_checked", "apply_input_checked", "twin_compared", "
                   "parallel_fit_tasks", "parallel_apply_tasks", "interleave_schedule",
                   "pickle_midway", "nested_series_cells", "nested_array_cells", "numpy3d_input",
                   "dataframe_series_input", "int_index_input",
-                  "triggering_condition_present"]}
+                  "triggering_condition_present", "refit_compared_with_fresh"]}
 FAULT_KINDS = {"C12": ["schedule_ooo", "schedule_interleave", "pickle_roundtrip", "repeat_call"]}
 RULE = {"C12": (
     "seeded (estimator x parameters x input container x call history x n_jobs pair x schedule "
@@ -129,7 +129,8 @@ def generate(prop, rng, tier):
         calls = []
         for _ in range(rng.randint(3, 8)):
             calls.append({"m": rng.choice(["transform", "transform", "inverse_transform"]),
-                          "a": rng.randint(0, 6), "len": rng.randint(9, 14)})
+                          "a": rng.randint(0, 6), "len": rng.randint(9, 14),
+                          "stride": rng.choice([1, 1, 1, 2])})
     elif cat == "panel":
         name = rng.choice(sorted(PANEL_TRANSFORMERS))
         scen["name"] = name
@@ -146,6 +147,9 @@ def generate(prop, rng, tier):
         name = rng.choice(sorted(table))
         scen["name"] = name
         scen["params"] = {k: rng.choice(v) for k, v in table[name].items()}
+        if name == "ColumnEnsembleClassifier" and rng.random() < 0.5:
+            scen["params"]["_same"] = True   # both columns get equally configured members ...
+            scen["shared_member"] = True     # ... and the primary is given one object twice
         scen["panel"] = {"n": rng.randint(8, 12), "cols": 2 if name in ("MUSE", "ColumnEnsembleClassifier") else 1,
                          "len": rng.choice([24, 32])}
         scen["container"] = rng.choice(["nested_series", "nested_series", "numpy3d"]) \
@@ -264,10 +268,10 @@ def build_series_transformer(spec):
     return C.build_transformer(spec)
 
 
-def build_named(name, params, n_jobs, random_state):
+def build_named(name, params, n_jobs, random_state, shared=False):
     import inspect
     cls = _find_class(name)
-    kw = dict(params)
+    kw = {k: v for k, v in params.items() if not k.startswith("_")}
     sig = inspect.signature(cls.__init__).parameters
     if "n_jobs" in sig:
         kw["n_jobs"] = n_jobs
@@ -277,9 +281,16 @@ def build_named(name, params, n_jobs, random_state):
         kw["random_state"] = random_state
     if name == "ColumnEnsembleClassifier":
         from sktime.classification.interval_based import TimeSeriesForestClassifier
-        kw["estimators"] = [
-            ("a", TimeSeriesForestClassifier(n_estimators=3, n_jobs=n_jobs, random_state=random_state), [0]),
-            ("b", TimeSeriesForestClassifier(n_estimators=2, n_jobs=n_jobs, random_state=random_state + 1), [1])]
+        if shared:
+            # the same (unfitted) classifier object given for both columns; equal in every
+            # parameter to the two separate objects of the sibling
+            one = TimeSeriesForestClassifier(n_estimators=3, n_jobs=n_jobs, random_state=random_state)
+            kw["estimators"] = [("a", one, [0]), ("b", one, [1])]
+        else:
+            kw["estimators"] = [
+                ("a", TimeSeriesForestClassifier(n_estimators=3, n_jobs=n_jobs, random_state=random_state), [0]),
+                ("b", TimeSeriesForestClassifier(n_estimators=3 if params.get("_same") else 2, n_jobs=n_jobs,
+                                                 random_state=random_state + (0 if params.get("_same") else 1)), [1])]
     return cls(**kw)
 
 
@@ -366,7 +377,9 @@ def execute(prop, scen):
 
         def call_args(c):
             a = c["a"]
-            return (wrap(y.iloc[a:a + c["len"]]),)
+            st = c.get("stride", 1) if base["kind"] in ("deseason", "cdeseason", "detrend", "log",
+                                                         "boxcox", "cos", "adapt") else 1
+            return (wrap(y.iloc[a:a + c["len"] * st:st]),)
 
         def do_call(est, c, args):
             return getattr(est, c["m"])(args[0])
@@ -389,8 +402,12 @@ def execute(prop, scen):
             return o.copy()
         train = lambda: (_copy(X), target.copy())  # noqa
 
+        _first = []
+
         def build(n_jobs):
-            return build_named(scen["name"], scen["params"], n_jobs, scen["random_state"])
+            shared = bool(scen.get("shared_member")) and not _first
+            _first.append(1)
+            return build_named(scen["name"], scen["params"], n_jobs, scen["random_state"], shared=shared)
 
         def fit(est, args):
             return est.fit(args[0], args[1])
@@ -532,6 +549,32 @@ def execute(prop, scen):
                 break
         digest.update(_short(r).encode())
         res.states.add(short_hash([label, c["m"], i]))
+    # ---- the much-used object fitted again on other data == a fresh equal estimator fitted
+    # on that data (nothing of the first fit may survive)
+    if scen.get("refit_check", True) and not res.violations and cat in ("panel", "classifier", "regressor", "series"):
+        try:
+            if cat == "series":
+                other = (wrap(y.iloc[6:6 + scen["n"]]),)
+                probe_c = {"m": "transform", "a": 7, "len": 9, "stride": 1}
+            else:
+                Xo, yo, yro = make_panel(d["seed"] + 2, p["n"], p["cols"], p["len"], scen["container"], d["index"])
+                other = (Xo, yro if cat == "regressor" else yo)
+                probe_c = scen["calls"][0]
+            fresh = build(scen["n_jobs"])
+            sE = sched.Scheduler("fifo", 0)
+            with sched.scenario_schedule(sE):
+                fit(est, other)
+                fit(fresh, tuple(o.copy() if hasattr(o, "copy") else o for o in other))
+                if hasattr(est, probe_c["m"]):
+                    r1 = do_call(est, probe_c, call_args(probe_c))
+                    r2 = do_call(fresh, probe_c, call_args(probe_c))
+                    res.probe("refit_compared_with_fresh")
+                    if not deep_equal(r1, r2):
+                        v("refit_differs_from_fresh", "%s after fitting the used estimator again on "
+                          "other data returns %s, a fresh equal estimator fitted on that data returns "
+                          "%s" % (probe_c["m"], _short(r1), _short(r2)), method=probe_c["m"])
+        except Exception as e:  # noqa
+            digest.update(("refit:%s" % type(e).__name__).encode())
     if _rng_digest() != rng_state:
         res.probe("global_rng_touched")
     if tasks_apply:
